@@ -14,6 +14,7 @@ package main
 import (
 	"encoding/base64"
 	"fmt"
+	"github.com/zenon-network/go-zenon/wallet"
 	"math/big"
 	"math/rand"
 
@@ -79,8 +80,20 @@ func epochHistorySpecial(deep bool) special {
 					produce(rng, fg.nd, 1, fg.out, users)
 				}
 			} else {
-				// fork at the end of an epoch, before it is rewarded
-				for slotOf(fg.nd)%60 < int64(56+rng.Intn(3)) {
+				// fork at the end of an epoch, before it is rewarded. Inside the epoch the delegation weights CHANGE from
+				// tick to tick (a new backer, backers of the genesis delegations moving funds), so that the epoch's
+				// delegation average differs from every single tick's
+				fg.send(users[0], types.PillarContract, types.ZnnTokenStandard, big.NewInt(0),
+					definition.ABIPillars.PackMethodPanic(definition.DelegateMethodName, g.Pillar2Name), "delegate-inside-epoch")
+				k := 0
+				// (not one of the first two epochs: the proof momentum of the first ticks is the genesis)
+				for slotOf(fg.nd) < 125 || slotOf(fg.nd)%60 < int64(56+rng.Intn(3)) {
+					if k%7 == 3 {
+						backer := []*wallet.KeyPair{g.User1, g.User2, users[0]}[rng.Intn(3)]
+						fg.send(backer, users[1].Address, types.ZnnTokenStandard, big.NewInt(int64(1+rng.Intn(50))*100000000), nil, "backer-moves-funds")
+						fg.out.Count("reorg:special:delegation-weight-changed-inside-epoch")
+					}
+					k++
 					produce(rng, fg.nd, 1, fg.out, users)
 				}
 			}
